@@ -438,6 +438,7 @@ func wrapCtxOnce(c *lib.Ctx, r *lib.Rand, p *peer, tag, tr, regime string, plan 
 		}
 	}
 	clk.reset()
+	resetHeartbeat()
 	start := time.Now()
 	var done chan callRes
 	var sl *scionLive
@@ -549,7 +550,7 @@ func wrapCtxOnce(c *lib.Ctx, r *lib.Rand, p *peer, tag, tr, regime string, plan 
 			cancel()
 		}
 	}
-	if timingBad || r0.panic != "" {
+	if timingBad || r0.panic != "" || strings.HasPrefix(regime, "expires-in-attempt") && starved(50*time.Millisecond) {
 		c.Count(tag + ":discarded:" + regime)
 		return
 	}
